@@ -41,6 +41,9 @@ impl vstd::std_specs::iter::IteratorSpecImpl for VxArrIter5 {
 // ---- opaque std / dependency types met by the event reader (behaviour enters only through the specs below) ----
 #[verifier::external_type_specification]
 #[verifier::external_body]
+pub struct ExPathBuf(std::path::PathBuf);
+#[verifier::external_type_specification]
+#[verifier::external_body]
 pub struct ExPath(std::path::Path);
 #[verifier::external_type_specification]
 #[verifier::external_body]
